@@ -1017,3 +1017,181 @@ Proof.
          | |- context [if ?c then _ else _] => destruct c eqn:?
          end; intros H; try discriminate; try (inversion H; subst; reflexivity); exfalso; lia.
 Qed.
+
+(* ================================================================== Layout.const with every initialiser kind *)
+Section GFoldP.
+  Context {I : Type}.
+  Variable fi : layout -> I -> resz.
+
+  Lemma gfold_preserves l : wf_layout l = true -> forall kvs cur v o w, 0 <= o -> 0 <= w ->
+    (forall k', In k' (map fst kvs) -> field_disj l o w k') ->
+    gfold fi l kvs cur = Okz v -> slice o w v = slice o w cur.
+  Proof.
+    intros Hwf. induction kvs as [|[k x] r IH]; intros cur v o w Ho Hw Hd Hf; simpl in Hf.
+    - inversion Hf; subst; reflexivity.
+    - destruct (Hd k ltac:(left; reflexivity)) as (o' & s' & Hfo & Hdisj). rewrite Hfo in Hf.
+      destruct (fi s' x) as [fv|c] eqn:Hfi; [|discriminate].
+      destruct (field_of_within l k o' s' Hwf Hfo) as (Ho' & _ & Hws).
+      pose proof (layout_size_nonneg s' Hws) as Hs'.
+      rewrite (IH _ _ o w Ho Hw (fun k' Hin => Hd k' (or_intror Hin)) Hf).
+      apply slice_upd_other; auto; lia.
+  Qed.
+
+  Lemma gfold_field l : wf_layout l = true -> forall kvs cur v,
+    keys_disjoint l (map fst kvs) = true -> gfold fi l kvs cur = Okz v ->
+    forall k x, In (k, x) kvs ->
+    exists off sub fv, field_of l k = Some (off, sub) /\ fi sub x = Okz fv /\
+                       slice off (layout_size sub) v = mask (layout_size sub) fv.
+  Proof.
+    intros Hwf. induction kvs as [|[k0 x0] r IH]; intros cur v Hkd Hf k x Hin; [destruct Hin|].
+    simpl map in Hkd. apply keys_disjoint_cons in Hkd. destruct Hkd as (o & s & Hfo & Hdis & Hkd).
+    simpl in Hf. rewrite Hfo in Hf. destruct (fi s x0) as [fv|c] eqn:Hfi; [|discriminate].
+    destruct Hin as [Heq|Hin].
+    - inversion Heq; subst. exists o, s, fv. split; auto. split; auto.
+      destruct (field_of_within l k o s Hwf Hfo) as (Ho & _ & Hws).
+      pose proof (layout_size_nonneg s Hws) as Hs.
+      rewrite (gfold_preserves l Hwf r _ v o (layout_size s) Ho Hs Hdis Hf).
+      apply slice_upd_same; auto.
+    - apply (IH _ v Hkd Hf k x Hin).
+  Qed.
+
+  Lemma gfold_range l : wf_layout l = true -> forall kvs cur v,
+    0 <= cur < 2 ^ layout_size l -> gfold fi l kvs cur = Okz v -> 0 <= v < 2 ^ layout_size l.
+  Proof.
+    intros Hwf. induction kvs as [|[k x] r IH]; intros cur v Hc Hf; simpl in Hf.
+    - inversion Hf; subst; auto.
+    - destruct (field_of l k) as [[o s]|] eqn:Hfo; [|discriminate].
+      destruct (fi s x) as [fv|c]; [|discriminate].
+      destruct (field_of_within l k o s Hwf Hfo) as (Ho & Hin & Hws).
+      pose proof (layout_size_nonneg s Hws) as Hs.
+      eapply IH; [|exact Hf]. apply upd_range; auto.
+  Qed.
+
+  Lemma gfold_app l : forall a b cur, gfold fi l (a ++ b) cur =
+    match gfold fi l a cur with Okz v => gfold fi l b v | e => e end.
+  Proof.
+    induction a as [|[k x] r IH]; intros b cur; simpl; [reflexivity|].
+    destruct (field_of l k) as [[o s]|]; [|reflexivity]. destruct (fi s x); [apply IH|reflexivity].
+  Qed.
+
+  (* whatever overlaps: the initialiser written last fully determines its field's bits *)
+  Lemma gfold_last l kvs k x cur v : wf_layout l = true -> gfold fi l (kvs ++ [(k, x)]) cur = Okz v ->
+    exists off sub fv, field_of l k = Some (off, sub) /\ fi sub x = Okz fv /\
+                       slice off (layout_size sub) v = mask (layout_size sub) fv.
+  Proof.
+    intros Hwf H. rewrite gfold_app in H. destruct (gfold fi l kvs cur) as [v0|]; [|discriminate].
+    simpl in H. destruct (field_of l k) as [[o s]|] eqn:Hfo; [|discriminate].
+    destruct (fi s x) as [fv|] eqn:Hfi; [|discriminate]. inversion H; subst.
+    exists o, s, fv. split; auto. split; auto.
+    destruct (field_of_within l k o s Hwf Hfo) as (Ho & _ & Hws).
+    apply slice_upd_same; auto. apply layout_size_nonneg; auto.
+  Qed.
+End GFoldP.
+
+Lemma const_fold_gfold rec l : forall kvs cur, const_fold rec l kvs cur = gfold (field_init rec) l kvs cur.
+Proof.
+  induction kvs as [|[k x] r IH]; intros cur; simpl; [reflexivity|].
+  destruct (field_of l k) as [[o s]|]; [|reflexivity]. destruct (field_init rec s x); [apply IH|reflexivity].
+Qed.
+
+Lemma xlayout_const_map l kvs : xlayout_const l (XMap kvs) =
+  if negb (is_layout l) then Errz 4
+  else if is_union l && (1 <? Z.of_nat (length kvs)) then Errz 3
+  else gfold (xfield_init xlayout_const) l kvs 0.
+Proof. reflexivity. Qed.
+
+Lemma xlayout_const_fold l kvs v : xlayout_const l (XMap kvs) = Okz v ->
+  is_layout l = true /\ gfold (xfield_init xlayout_const) l kvs 0 = Okz v.
+Proof.
+  rewrite xlayout_const_map. destruct (is_layout l); simpl; [|discriminate].
+  destruct (is_union l && (1 <? Z.of_nat (length kvs))); [discriminate|auto].
+Qed.
+
+Lemma xlayout_const_range l i v : wf_layout l = true -> xlayout_const l i = Okz v -> 0 <= v < 2 ^ layout_size l.
+Proof.
+  intros Hwf H. destruct i as [x|kvs|x c|l' r]; try discriminate.
+  apply xlayout_const_fold in H. destruct H as [_ H].
+  apply (gfold_range (xfield_init xlayout_const) l Hwf kvs 0 v); auto.
+  pose proof (pow2_pos (layout_size l) (layout_size_nonneg l Hwf)). lia.
+Qed.
+
+Lemma layout_eqb_size a b : layout_eqb a b = true -> layout_size a = layout_size b.
+Proof. unfold layout_eqb. rewrite !andb_true_iff. intros [[[H _] _] _]. lia. Qed.
+
+(* one level, any initialiser kind *)
+Lemma xconst_field_roundtrip l kvs v k x : wf_layout l = true ->
+  xlayout_const l (XMap kvs) = Okz v -> keys_disjoint l (map fst kvs) = true -> In (k, x) kvs ->
+  exists off sub fv, field_of l k = Some (off, sub) /\ xfield_init xlayout_const sub x = Okz fv /\
+                     const_getitem l v k = const_field sub (mask (layout_size sub) fv).
+Proof.
+  intros Hwf Hc Hkd Hin. apply xlayout_const_fold in Hc. destruct Hc as [Hl Hc].
+  destruct (gfold_field (xfield_init xlayout_const) l Hwf kvs 0 v Hkd Hc k x Hin) as (off & sub & fv & Hfo & Hfi & Hs).
+  exists off, sub, fv. split; auto. split; auto. rewrite (const_getitem_field l v k off sub Hl Hfo). rewrite Hs. reflexivity.
+Qed.
+
+(* the same for the initialiser that comes last, with arbitrary overlaps (flexible layouts) *)
+Lemma xconst_last_wins l kvs k x v : wf_layout l = true -> xlayout_const l (XMap (kvs ++ [(k, x)])) = Okz v ->
+  exists off sub fv, field_of l k = Some (off, sub) /\ xfield_init xlayout_const sub x = Okz fv /\
+                     const_getitem l v k = const_field sub (mask (layout_size sub) fv).
+Proof.
+  intros Hwf Hc. apply xlayout_const_fold in Hc. destruct Hc as [Hl Hc].
+  destruct (gfold_last (xfield_init xlayout_const) l kvs k x 0 v Hwf Hc) as (off & sub & fv & Hfo & Hfi & Hs).
+  exists off, sub, fv. split; auto. split; auto. rewrite (const_getitem_field l v k off sub Hl Hfo). rewrite Hs. reflexivity.
+Qed.
+
+(* what each initialiser kind reads back as, given the inserted integer fv of xfield_init *)
+Lemma xfield_readback sub x fv : wf_layout sub = true -> xfield_init xlayout_const sub x = Okz fv ->
+  (forall s, sub = Leaf s ->
+     (forall xv, x = XVal xv -> const_field sub (mask (layout_size sub) fv) = Ok sub (norm s xv)) /\
+     (forall cv c, x = XConst cv c -> const_field sub (mask (layout_size sub) fv) = Ok sub (norm s (norm c cv)))) /\
+  (is_layout sub = true ->
+     (forall kvs, x = XMap kvs -> xlayout_const sub x = Okz fv /\ const_field sub (mask (layout_size sub) fv) = Ok sub fv) /\
+     (forall l' raw, x = XDConst l' raw -> 0 <= raw < 2 ^ layout_size l' ->
+        fv = raw /\ layout_eqb sub l' = true /\ const_field sub (mask (layout_size sub) fv) = Ok sub raw)) /\
+  (forall s vw ms m, sub = ELeaf s vw ms -> x = XVal m -> 0 <= m < 2 ^ width s ->
+     const_field sub (mask (layout_size sub) fv) = Ok sub m).
+Proof.
+  intros Hwf Hfi. split; [|split].
+  - intros s ->. simpl in Hwf. split.
+    + intros xv ->. simpl in Hfi. inversion Hfi; subst. apply const_field_leaf; auto.
+    + intros cv c ->. simpl in Hfi. inversion Hfi; subst. simpl. rewrite norm_of_mask by auto. reflexivity.
+  - intros Hl. split.
+    + intros kvs ->. assert (xlayout_const sub (XMap kvs) = Okz fv) as Hx.
+      { destruct sub; simpl in Hl; try discriminate; exact Hfi. }
+      split; auto. apply const_field_layout; auto. apply (xlayout_const_range sub _ fv Hwf Hx).
+    + intros l' raw -> Hr.
+      assert (layout_eqb sub l' = true /\ fv = raw) as [He ->].
+      { destruct sub as [s|s vw ms|fs|fs|e n|sz fs]; simpl in Hl; try discriminate; cbn [xfield_init is_union] in Hfi;
+        try (destruct (layout_eqb _ l'); inversion Hfi; auto; fail).
+        destruct l' as [?|? ? ?|?|?|e' n'|? ?]; try discriminate.
+        destruct (1 <? Z.of_nat n'); [discriminate|]. destruct (layout_eqb _ _); inversion Hfi; auto. }
+      split; auto. split; auto. apply const_field_layout; auto. rewrite (layout_eqb_size _ _ He). exact Hr.
+  - intros s vw ms m -> -> Hm. simpl in Hfi, Hwf. destruct (memz m ms) eqn:Hmem; [|discriminate].
+    inversion Hfi; subst. simpl layout_size. rewrite mask_of_norm by auto. rewrite mask_small by auto.
+    simpl. rewrite Hmem. reflexivity.
+Qed.
+
+(* the read-back clauses for every initialiser kind, from the facts delivered by the fold lemmas *)
+Definition xreadback (l : layout) (v k : Z) (sub : layout) (x : xinit) : Prop :=
+  (forall s xv, sub = Leaf s -> x = XVal xv -> const_getitem l v k = Ok sub (norm s xv)) /\
+  (forall s cv c, sub = Leaf s -> x = XConst cv c -> const_getitem l v k = Ok sub (norm s (norm c cv))) /\
+  (forall kvs', is_layout sub = true -> x = XMap kvs' ->
+     exists fv, xlayout_const sub x = Okz fv /\ const_getitem l v k = Ok sub fv) /\
+  (forall l' raw, is_layout sub = true -> x = XDConst l' raw -> 0 <= raw < 2 ^ layout_size l' ->
+     layout_eqb sub l' = true /\ const_getitem l v k = Ok sub raw) /\
+  (forall s vw ms m, sub = ELeaf s vw ms -> x = XVal m -> 0 <= m < 2 ^ width s ->
+     const_getitem l v k = Ok sub m).
+
+Lemma xreadback_pack l v k off sub fv x : wf_layout l = true -> field_of l k = Some (off, sub) ->
+  xfield_init xlayout_const sub x = Okz fv ->
+  const_getitem l v k = const_field sub (mask (layout_size sub) fv) -> xreadback l v k sub x.
+Proof.
+  intros Hwf Hfo Hfi Hg. destruct (field_of_within l k off sub Hwf Hfo) as (_ & _ & Hws).
+  destruct (xfield_readback sub x fv Hws Hfi) as (HL & HN & HE). unfold xreadback. rewrite Hg.
+  split; [|split; [|split; [|split]]].
+  - intros s xv Hs Hx. apply (proj1 (HL s Hs) xv Hx).
+  - intros s cv c Hs Hx. apply (proj2 (HL s Hs) cv c Hx).
+  - intros kvs' Hl Hx. exists fv. apply (proj1 (HN Hl) kvs' Hx).
+  - intros l' raw Hl Hx Hr. destruct (proj2 (HN Hl) l' raw Hx Hr) as (_ & He & Hc). auto.
+  - intros s vw ms m Hs Hx Hm. apply (HE s vw ms m Hs Hx Hm).
+Qed.
